@@ -667,3 +667,560 @@ def run(R: vlib.Run):
     R.extra_cov["correspondence_cases"] = len(corr_rf) + len(corr_ds) + len(corr_det)
     R.extra_cov["detrend_model_has_input_dtype_cast"] = uses_cast
     return R
+
+
+# ------------------------------------------------------------------------------------------------
+# at-scale search (README: "Source pins, the at-scale search and the hang watchdog")
+# ------------------------------------------------------------------------------------------------
+
+SCALE_NBASE = 4096 * 4097          # 2**24 + 4096 samples: the longest input of the search
+_SCALE_BASE = {}
+
+
+def scale_input(seed, kind, n, dtype, cap=255):
+    """Generator of EVERY at-scale input (replay: `props.c14.scale_input(**case["input"])`, reshaped to case["shape"] for a block).
+    The first n entries of one fixed stream u of SCALE_NBASE uniform bytes, mapped to integer values so that the definitions are exact:
+    uniform: 0..cap (cap <= 255) | high: the top fifth of 0..cap (uint8: 204..255) | ramp: ((3 i + 7) mod 251) mod (cap + 1), position
+    dependent with an odd period | wide: multiples of cap // 255 up to cap (float dtypes, cap > 255) | big: 2**30 + u (float64: a float32
+    accumulator cannot hold it) | huge: finfo(dtype).max / 4 * (0.5 + u / 512), positive values next to the top of a float dtype"""
+    seed, n, cap = int(seed), int(n), int(cap)
+    u = _SCALE_BASE.get(seed)
+    if u is None:
+        _SCALE_BASE.clear()
+        u = _SCALE_BASE[seed] = np.random.default_rng([seed, 1414]).integers(0, 256, SCALE_NBASE, dtype=np.uint8)
+    if not 1 <= n <= SCALE_NBASE:
+        raise ValueError("scale_input: n out of range")
+    u = u[:n]
+    dt = np.dtype(dtype)
+    lo = min(cap, 255)
+    if kind == "uniform":
+        a = u if lo == 255 else u % np.uint8(lo + 1)
+    elif kind == "high":
+        a = np.uint8(lo) - u % np.uint8(lo // 5 + 1)
+    elif kind == "ramp":
+        a = ((3 * np.arange(n, dtype=np.int64) + 7) % 251) % (lo + 1)
+    elif kind == "wide":
+        a = u.astype(np.int64) * max(cap // 255, 1)
+    elif kind == "big":
+        a = u.astype(np.int64) + (1 << 30)
+    elif kind == "huge":
+        a = (0.5 + u.astype(np.float64) / 512.0) * (float(np.finfo(dt).max) / 4.0)
+    else:
+        raise ValueError(f"scale_input: unknown kind {kind}")
+    return np.ascontiguousarray(a.astype(dt))
+
+
+def _scale_diff(out, exp, in_dtype=None, small_dtype=None):
+    """None if `out` equals the definition `exp` (float64) under the rule of the small-scope oracle (`agrees`: rounding of the output dtype,
+    or the definition converted to an integer input dtype at the very end) AND its dtype is the dtype the same call returns for a small
+    input; otherwise a small dict that locates the difference"""
+    out = np.asarray(out)
+    exp = np.asarray(exp, dtype=np.float64)
+    if out.shape != exp.shape:
+        return {"problem": "shape of the result", "got_shape": list(out.shape), "expected_shape": list(exp.shape)}
+    if small_dtype is not None and out.dtype != small_dtype:
+        ne = np.flatnonzero(out.reshape(-1).astype(np.float64) != exp.reshape(-1))        # a value that shows it, if any
+        k = int(ne[len(ne) // 2]) if len(ne) else exp.size // 2
+        return {"problem": "the result's dtype (and with it the rounding of every value) depends on the size of the input",
+                "got_dtype": str(out.dtype), "dtype_of_the_same_call_on_a_small_input": str(small_dtype),
+                "example_index": int(k), "got": out.ravel()[k].item(), "definition": float(exp.ravel()[k])}
+    if out.dtype.kind != "f" and not (in_dtype is not None and out.dtype == np.dtype(in_dtype)):
+        return {"problem": "dtype of the result", "got_dtype": str(out.dtype)}
+    rt, at = tol_for(out)
+    fo, fe = out.reshape(-1), exp.reshape(-1)
+    nbad, first, last = 0, None, None
+    for a in range(0, fo.size, 1 << 21):          # in pieces: no float64 copies of a 2**24-sample result
+        o, e = fo[a:a + (1 << 21)], fe[a:a + (1 << 21)]
+        bad = ~np.isclose(o.astype(np.float64), e, rtol=rt, atol=at) if out.dtype.kind == "f" else o != e.astype(in_dtype)
+        if bad.any():
+            k = np.flatnonzero(bad)
+            nbad += int(k.size)
+            first = a + int(k[0]) if first is None else first
+            last = a + int(k[-1])
+    if not nbad:
+        return None
+    return {"n_bad": nbad, "n_out": int(out.size), "first_bad_index": first, "last_bad_index": last,
+            "got": fo[first].item(), "definition": float(fe[first]), "out_dtype": str(out.dtype)}
+
+
+def _scale_median_rows(g):
+    """median of every row by sorting (independent of np.median's partition path); integer-valued rows, so the result is exact"""
+    f = g.shape[1]
+    s = np.sort(g, axis=1)
+    return (s[:, (f - 1) // 2].astype(np.float64) + s[:, f // 2].astype(np.float64)) / 2.0
+
+
+def _scale_search(R: vlib.Run):
+    """at-scale search (run when something no longer checks and no small failing input was found, in the thorough tier, and with
+    VERIF_SCALE=1): every API of the property on inputs around 2**16, 2**18, 2**20, 2**22 and 2**24 samples (at the power of two and just
+    above it), windows / factors / row counts above 65536, windows wider than the data, groups as long as the data, blocks of 2**20 ..
+    2**24 samples of every shape role, values at the top of the dtype, and long histories on one large object -- compared with the same
+    definitions as `run` (float64 / int64 NumPy), under the same tolerances.  Besides the values, the dtype of a result must be the one
+    the same call returns for a small input: a size-gated code path must not change what a group mean is rounded to."""
+    import gc
+    import os
+    import time
+    from sigpyproc.block import FilterbankBlock
+    from sigpyproc.core import kernels, stats
+    from sigpyproc.header import Header
+    from sigpyproc.timeseries import TimeSeries
+
+    seed = R.seed + 1414
+    pos_rng = np.random.default_rng([seed, 7])
+    tsamp = 0.00032768
+    P16, P18, P20, P22, P24 = (1 << k for k in (16, 18, 20, 22, 24))
+    DT = dict(DTYPES)
+    GEN = "props/c14.py: scale_input(**case['input']) (reshape to case['shape'] if present); the search is scale()"
+    F24 = (1 << 24) - 1            # integer-valued float32 sums are exact up to here
+    timing = {}
+    t_all = time.time()
+
+    def inp(kind, n, dname, cap=255):
+        return {"seed": seed, "kind": kind, "n": int(n), "dtype": dname, "cap": int(cap)}
+
+    def make(i):
+        return scale_input(**i)
+
+    def attempt(key, case, fn):
+        """one implementation call: named for the hang watchdog, an exception is a finding"""
+        R.tick(case)
+        try:
+            return fn()
+        except Exception as e:  # noqa: BLE001
+            R.fail(f"scale-{key}", f"raised {type(e).__name__} at scale: {str(e)[:160]}", case)
+            return None
+
+    def verdict(key, what, case, out, exp, in_dtype=None, small_dtype=None):
+        d = _scale_diff(out, exp, in_dtype, small_dtype)
+        if d is not None:
+            R.fail(f"scale-{key}", what, dict(case, **d))
+
+    def untouched(x, x0, api, case):
+        """(a) of `run`: a filter / decimator leaves the array it was given bit-identical"""
+        if not np.array_equal(x.reshape(-1).view(np.uint8), x0.reshape(-1).view(np.uint8)):
+            R.fail(f"scale-input-mutated-{api}", f"{api} modified the large array it was given (a filter / decimator must leave its input bit-identical)",
+                   dict(case, first_changed_byte=int(np.flatnonzero(x.reshape(-1).view(np.uint8) != x0.reshape(-1).view(np.uint8))[0])))
+            x[...] = x0
+
+    def header(nchans, nsamps, data_type):
+        return Header(filename="c14s.fil" if nchans > 1 else "c14s.tim", data_type=data_type, nchans=nchans, foff=-1.0, fch1=1500.0,
+                      nbits=32, tsamp=tsamp, tstart=60000.0, nsamples=nsamps)
+
+    # the dtype every API returns for a SMALL input of each dtype / method: the convention a result at scale has to follow
+    small = {}
+    s1 = np.array([3, 1, 4, 1, 5, 9, 2, 6, 5, 3, 5, 8])
+    s2 = (np.arange(24) * 7 % 23).reshape(4, 6)
+
+    def small_dtype(api, dname, method):
+        k = (api, dname, method)
+        if k not in small:
+            dt = DT[dname]
+            a1, a2 = s1.astype(dt), s2.astype(dt)
+            calls = {
+                "downsample_1d": lambda: stats.downsample_1d(a1, 3, method),
+                "kernels.downsample_1d_mean": lambda: kernels.downsample_1d_mean(a1, 3),
+                "kernels.downsample_1d_mean_parallel": lambda: kernels.downsample_1d_mean_parallel(a1, 3),
+                "downsample_2d": lambda: stats.downsample_2d(a2, (2, 3), method),
+                "downsample_2d_flat": lambda: stats.downsample_2d_flat(a2.ravel(), 2, 3, 4, 6, method),
+                "kernels.downsample_2d_mean_parallel": lambda: kernels.downsample_2d_mean_parallel(a2.ravel(), 2, 3, 4, 6),
+                "running_filter": lambda: stats.running_filter(a1, 3, method),
+                "detrend_1d": lambda: kernels.detrend_1d(a1),
+                "TimeSeries.downsample": lambda: TimeSeries(a1, header(1, 12, "time series")).downsample(3, method).data,
+                "TimeSeries.deredden": lambda: TimeSeries(a1, header(1, 12, "time series")).deredden(method, window=3 * tsamp).data,
+                "FilterbankBlock.downsample": lambda: FilterbankBlock(a2, header(4, 6, "filterbank")).downsample(2, 3, method).data,
+            }
+            R.tick({"api": api, "dtype": dname, "method": method, "input": "small probe of the result dtype"})
+            try:
+                small[k] = np.asarray(calls[api]()).dtype
+            except Exception:  # noqa: BLE001
+                small[k] = None          # the small scope reports that
+        return small[k]
+
+    # ---- A. running filter / deredden -------------------------------------------------------------------------------
+    def padded(x, w):
+        n, pl = len(x), w // 2
+        pr = w - 1 - pl
+        return np.concatenate((x[sym_idx(n, np.arange(-pl, 0))], x, x[sym_idx(n, np.arange(n, n + pr))]))
+
+    def rf_positions(n, w):
+        """where the median is compared with the definition: everywhere if affordable, otherwise both ends, the neighbourhood of every
+        power of two and of multiples of 2**16 / 16384, and random positions (the mean is compared everywhere)"""
+        budget = min(int(2.4e7 // w), 6000)
+        if n <= int(2.4e7 // w):
+            return np.arange(n)
+        budget = max(budget, 40)
+        edge = max(6, budget // 5)
+        marks = np.array([P16, P18, P20, P22, P24, w, w // 2, n - w, n // 2])
+        mult = pos_rng.permutation(np.arange(1, n // P16 + 1))[: budget // 8] * P16
+        cand = np.concatenate((np.arange(edge), np.arange(n - edge, n), marks - 1, marks, marks + 1, mult - 1, mult, pos_rng.integers(0, n, budget)))
+        cand = cand[(cand >= 0) & (cand < n)]
+        _, first = np.unique(cand, return_index=True)
+        return np.sort(cand[np.sort(first)][:budget])
+
+    def rf_case(n, w, dname, kind, cap=255, methods=METHODS, deredden=None):
+        t0 = time.time()
+        i = inp(kind, n, dname, cap)
+        x = make(i)
+        x0 = x.copy()
+        p = padded(x, w)
+        c = np.zeros(len(p) + 1, dtype=np.int64)
+        np.cumsum(p.astype(np.int64), out=c[1:])
+        exp_mean = (c[w:] - c[:-w]) / float(w)
+        del c
+        P = rf_positions(n, w)
+        for method in methods:
+            case = {"api": "running_filter", "input": i, "window": w, "method": method, "generator": GEN}
+            R.case(("scale", "rf", n, w, dname, kind, cap, method), regime="scale")
+            out = attempt(f"running_filter-{method}", case, lambda: stats.running_filter(x, w, method))
+            untouched(x, x0, "running_filter", case)
+            if out is None:
+                continue
+            sd = small_dtype("running_filter", dname, method)
+            what = "running filter at scale differs from the aggregate of the centred, symmetrically reflected window"
+            if np.asarray(out).shape != (n,):
+                R.fail(f"scale-running_filter-{method}", "output length differs from the input length at scale", dict(case, got_shape=list(np.asarray(out).shape)))
+                continue
+            if method == "mean":
+                verdict(f"running_filter-{method}", what, case, out, exp_mean, None, sd)
+                exp_full = exp_mean
+            else:
+                win = np.lib.stride_tricks.sliding_window_view(p, w)
+                exp_p = np.empty(len(P), dtype=np.float64)
+                step = max(1, int(1.2e7 // w))
+                for a in range(0, len(P), step):
+                    exp_p[a:a + step] = np.median(win[P[a:a + step]].astype(np.float64), axis=1)
+                d = _scale_diff(np.asarray(out)[P], exp_p, None, sd)
+                if d is not None:
+                    for k_ in ("first_bad_index", "last_bad_index", "example_index"):
+                        if k_ in d:
+                            d[k_] = int(P[d[k_]])
+                    R.fail(f"scale-running_filter-{method}", what, dict(case, positions_compared=int(len(P)), **d))
+                exp_full = None
+            if deredden and (deredden == "both" or method == deredden) and dname == "float32" and round(w * tsamp / tsamp) == w:
+                dcase = {"api": "TimeSeries.deredden", "input": i, "window_bins": w, "tsamp": tsamp, "method": method, "generator": GEN}
+                R.case(("scale", "dered", n, w, kind, cap, method), regime="scale")
+                ts = TimeSeries(x, header(1, n, "time series"))
+                got = attempt(f"deredden-{method}", dcase, lambda: ts.deredden(method, window=w * tsamp).data)
+                untouched(x, x0, "TimeSeries.deredden", dcase)
+                if got is not None:
+                    sdd = small_dtype("TimeSeries.deredden", dname, method)
+                    whatd = "de-reddened series at scale is not the input minus its running filter"
+                    if np.asarray(got).shape != (n,):
+                        R.fail(f"scale-deredden-{method}", "de-reddened series has another length than the input at scale", dict(dcase, got_shape=list(np.asarray(got).shape)))
+                    elif exp_full is not None:
+                        verdict(f"deredden-{method}", whatd, dcase, got, x0.astype(np.float64) - exp_full, None, sdd)
+                    else:
+                        d = _scale_diff(np.asarray(got)[P], x0.astype(np.float64)[P] - exp_p, None, sdd)
+                        if d is not None:
+                            for k_ in ("first_bad_index", "last_bad_index", "example_index"):
+                                if k_ in d:
+                                    d[k_] = int(P[d[k_]])
+                            R.fail(f"scale-deredden-{method}", whatd, dict(dcase, positions_compared=int(len(P)), **d))
+                del ts
+        timing[f"rf {n} {w} {dname}"] = round(time.time() - t0, 2)
+
+    BOTH = "both"
+    rf_table = [
+        # float32: integer values with w * max < 2**24, so that a float32 moving sum is exact (deredden: values <= 255 only, as in `run`)
+        (P16 - 1, 2, "float32", "wide", F24 // 2, METHODS, None), (P16 + 1, P16, "float32", "uniform", 255, METHODS, BOTH),
+        (P16 + 1, 3 * (P16 + 1) + 1, "float32", "uniform", F24 // (3 * (P16 + 1) + 1), METHODS, BOTH),
+        (P18 + 1, 16385, "float32", "high", 255, METHODS, BOTH), (P20 - 1, 3, "float32", "wide", F24 // 3, METHODS, None),
+        (P20 + 1, P16 + 1, "float32", "ramp", 255, METHODS, BOTH), (P22 + 3, 16384, "float32", "uniform", 255, METHODS, "median"),
+        (P24 + 5, 5, "float32", "wide", F24 // 5, METHODS, None), (P24 + 5, 70001, "float32", "uniform", F24 // 70001, METHODS, "mean"),
+        # float64
+        (P16, 101, "float64", "big", 255, METHODS, None), (P16 + 1, P16 + 1, "float64", "uniform", 255, METHODS, None),
+        (P16, 2 * P16, "float64", "big", 255, METHODS, None), (P18 + 1, 2 * (P18 + 1) + 1, "float64", "ramp", 255, METHODS, None),
+        (P20, 1000, "float64", "high", 255, METHODS, None), (P20 + 1, P20 + 2, "float64", "uniform", 255, METHODS, None),
+        (P22 + 3, 4, "float64", "big", 255, METHODS, None), (SCALE_NBASE, 16384, "float64", "uniform", 255, ("mean",), None),
+        # uint8: bottleneck has no compiled loop for 8-bit input (its NumPy fallback costs a Python call per sample), so only around 2**16
+        (P16 + 1, 101, "uint8", "uniform", 255, METHODS, None), (P16, 2, "uint8", "high", 255, METHODS, None),
+    ]
+    for n, w, dname, kind, cap, methods, dered in rf_table:
+        rf_case(n, w, dname, kind, cap, methods=methods, deredden=dered)
+        gc.collect()
+    timing["A"] = round(time.time() - t_all, 1)
+
+    # ---- B. decimation of a series -------------------------------------------------------------------------------------
+    def ds1_case(n, dname, kind, factors, median_factors, cap=255):
+        t0 = time.time()
+        dt = DT[dname]
+        i = inp(kind, n, dname, cap)
+        x = make(i)
+        x0 = x.copy()
+        ts = TimeSeries(x, header(1, n, "time series")) if dname == "float32" else None
+        for f in factors:
+            m = n // f
+            g = x0[:m * f].reshape(m, f)
+            for method in ("mean", "median"):
+                if method == "median" and f not in median_factors:
+                    continue
+                if kind == "huge" and method == "median":
+                    continue
+                if method == "mean":
+                    exp = g.sum(axis=1, dtype=np.int64 if dt is np.uint8 else np.float64) / float(f)
+                else:
+                    exp = _scale_median_rows(g)
+                apis = [("downsample_1d", lambda: stats.downsample_1d(x, f, method))]
+                if method == "mean":
+                    apis += [("kernels.downsample_1d_mean", lambda: kernels.downsample_1d_mean(x, f)),
+                             ("kernels.downsample_1d_mean_parallel", lambda: kernels.downsample_1d_mean_parallel(x, f))]
+                if ts is not None and f != 1:
+                    apis += [("TimeSeries.downsample", lambda: ts.downsample(f, method).data)]
+                for api, fn in apis:
+                    case = {"api": api, "input": i, "factor": f, "method": method, "generator": GEN}
+                    R.case(("scale", api, n, f, dname, kind, method), regime="scale")
+                    key = {"downsample_1d": f"downsample_1d-{method}", "TimeSeries.downsample": f"timeseries-downsample-{method}"}.get(api, "kernel-" + api.split(".")[-1])
+                    out = attempt(key, case, fn)
+                    untouched(x, x0, api, case)
+                    if out is not None:
+                        verdict(key, f"entry i of {api} at scale is not the {method} of x[i f : (i+1) f] (length floor(n/f))", case, out, exp,
+                                dt, small_dtype(api, dname, method))
+                del exp
+            del g
+        timing[f"ds1 {n} {dname}"] = round(time.time() - t0, 2)
+
+    ds1_table = [
+        (P16 - 1, "uint8", "high", (1, 2, 49, 255, 256, P16 - 1), (2, 255, P16 - 1)),
+        (P16, "float32", "uniform", (2, 256, 257, P16 // 2, P16), (256, P16)),
+        (P16 + 1, "float64", "big", (3, 49, P16, P16 + 1), (3, P16)),
+        (P16 + 1, "uint8", "uniform", (1, 3, 103, P16, P16 + 1), (103, P16 + 1)),
+        (P18 + 1, "float32", "huge", (2, 103, P16 + 1, P18 + 1), ()),
+        (P18 + 1, "uint8", "ramp", (7, P16 + 1, (P18 + 1) // 2, P18 + 1), (7, P18 + 1)),
+        (P20, "uint8", "uniform", (2, 49, P16, P20 // 2, P20), (49, P20)),
+        (P20 + 1, "uint8", "high", (3, 1000, P16 + 1, (P20 + 1) // 3, P20 + 1), (1000, P16 + 1)),
+        (P20 + 1, "float32", "ramp", (2, 7, P16 + 1, P20 + 1), (7, P20 + 1)),
+        (P20 + 1, "float64", "big", (5, 65536, P20), (5,)),
+        (P22, "uint8", "ramp", (4, 49, P16 + 1, P22), (4,)),
+        (P22 + 1, "uint8", "high", (2, 107, (1 << 21) + 1, P22 + 1), (107, P22 + 1)),
+        (P22 + 1, "float32", "uniform", (3, P16 + 1, P22 + 1), (P16 + 1,)),
+        (P22 + 1, "float64", "huge", (2, 196, P22 + 1), ()),
+        (P24, "uint8", "uniform", (2, 256, P16 + 1, P24), (256,)),
+        (P24 + 1, "uint8", "high", (3, 49, (1 << 23) + 1, P24 + 1), (3, P24 + 1)),
+        (P24 + 1, "float32", "uniform", (2, P16 + 1, P24 + 1), (P16 + 1,)),
+        (P24 + 1, "float64", "big", (7, P20 + 1), (7,)),
+        (SCALE_NBASE, "float32", "huge", (4097, 5), ()),
+    ]
+    for n, dname, kind, factors, medf in ds1_table:
+        ds1_case(n, dname, kind, factors, medf)
+        gc.collect()
+    timing["B"] = round(time.time() - t_all, 1)
+
+    # ---- C. decimation of a block (2-D, flat, parallel kernel, FilterbankBlock) --------------------------------------------
+    def ds2_case(d1, d2, dname, kind, pairs, median_pairs):
+        t0 = time.time()
+        dt = DT[dname]
+        for (f1, f2) in pairs:
+            cap = 255
+            if dname == "float32":        # np.mean accumulates a float32 block in float32: keep every group sum exact
+                cap = min(255, F24 // (f1 * f2))
+                if cap < 1:
+                    continue
+            i = inp(kind, d1 * d2, dname, cap)
+            x = make(i).reshape(d1, d2)
+            x0 = x.copy()
+            m1, m2 = d1 // f1, d2 // f2
+            g4 = x0[:m1 * f1, :m2 * f2].reshape(m1, f1, m2, f2)
+            blk = FilterbankBlock(x, header(d1, d2, "filterbank")) if dname == "float32" else None
+            # the definition itself on a few groups (corners + random): entry (i, j) is the aggregate of rows i f1.. and columns j f2..
+            spots = {(0, 0), (m1 - 1, m2 - 1), (0, m2 - 1), (m1 - 1, 0)} | {(int(a), int(b)) for a, b in zip(pos_rng.integers(0, m1, 24), pos_rng.integers(0, m2, 24))}
+            for method in ("mean", "median"):
+                if method == "median" and (f1, f2) not in median_pairs:
+                    continue
+                if method == "mean":
+                    exp = g4.sum(axis=(1, 3), dtype=np.int64 if dt is np.uint8 else np.float64) / float(f1 * f2)
+                else:
+                    exp = _scale_median_rows(g4.transpose(0, 2, 1, 3).reshape(m1 * m2, f1 * f2)).reshape(m1, m2)
+                op = np.mean if method == "mean" else np.median
+                for (a, b) in spots:
+                    v = float(op(x0[a * f1:(a + 1) * f1, b * f2:(b + 1) * f2].astype(np.float64)))
+                    if abs(v - exp[a, b]) > 1e-9 * max(1.0, abs(v)):
+                        raise AssertionError(f"scale(): vectorised reference differs from the definition at group {(a, b)} of {(d1, d2, f1, f2, dname, method)}")
+                apis = [("downsample_2d", lambda: stats.downsample_2d(x, (f1, f2), method), False),
+                        ("downsample_2d_flat", lambda: stats.downsample_2d_flat(x.reshape(-1), f1, f2, d1, d2, method), True)]
+                if method == "mean":
+                    apis += [("kernels.downsample_2d_mean_parallel", lambda: kernels.downsample_2d_mean_parallel(x.reshape(-1), f1, f2, d1, d2), True)]
+                if blk is not None:
+                    apis += [("FilterbankBlock.downsample", lambda: blk.downsample(f1, f2, method).data, False)]
+                for api, fn, flat in apis:
+                    case = {"api": api, "input": i, "shape": [d1, d2], "factors": [f1, f2], "method": method, "generator": GEN}
+                    R.case(("scale", api, d1, d2, f1, f2, dname, kind, method), regime="scale")
+                    key = {"downsample_2d": f"downsample_2d-{method}", "downsample_2d_flat": f"downsample_2d_flat-{method}",
+                           "FilterbankBlock.downsample": f"block-downsample-{method}"}.get(api, "kernel-" + api.split(".")[-1])
+                    out = attempt(key, case, fn)
+                    untouched(x, x0, api, case)
+                    if out is not None:
+                        verdict(key, f"entry (i, j) of {api} at scale is not the {method} of rows i f1.. and columns j f2.. (full groups only)", case, out,
+                                exp.ravel() if flat else exp, dt, small_dtype(api, dname, method))
+                del exp
+            del g4, x, x0, blk
+            gc.collect()
+        timing[f"ds2 {d1}x{d2} {dname}"] = round(time.time() - t0, 2)
+
+    ds2_table = [
+        (64, 16385, "uint8", "uniform", ((1, 3), (64, 1), (4, 8)), ((4, 8),)),
+        (64, 16385, "float32", "high", ((4, 8), (3, 16385)), ((3, 16385),)),
+        (1024, 4096, "uint8", "high", ((1, 3), (4, 8)), ((1, 3),)),
+        (1024, 4096, "float64", "big", ((3, 5),), ()),
+        (1024, 4100, "uint8", "uniform", ((3, 5), (1024, 1), (1, 4100)), ((1, 4100),)),
+        (1024, 4100, "float32", "uniform", ((1, 3), (4, 8), (1024, 4)), ((4, 8),)),
+        (1024, 4100, "float64", "uniform", ((3, 5),), ((3, 5),)),
+        (2050, 2048, "uint8", "ramp", ((7, 7), (2, 2048)), ((7, 7),)),
+        (2050, 2048, "float32", "ramp", ((7, 7),), ()),
+        (P16 + 1, 65, "uint8", "uniform", ((2, 5), (P16 + 1, 1), (3, 65)), ((2, 5),)),
+        (P16 + 1, 65, "float32", "uniform", ((P16, 3), (2, 5)), ()),
+        (3, P20 + 7, "uint8", "high", ((3, 1), (2, P16 + 1)), ((2, P16 + 1),)),
+        (3, P20 + 7, "float64", "big", ((1, P16 + 1),), ()),
+        (P18 + 1, 5, "float32", "uniform", ((P16 + 1, 5), (1, 2)), ((1, 2),)),
+        (1, P22 + 3, "uint8", "uniform", ((1, 3), (1, P16 + 1)), ((1, 3),)),
+        (4096, 4097, "uint8", "uniform", ((1, 3), (4, 8)), ((4, 8),)),
+        (4096, 4097, "float32", "uniform", ((3, 5),), ()),
+        (4096, 4097, "float64", "uniform", ((4, 8),), ()),
+    ]
+    for d1, d2, dname, kind, pairs, medp in ds2_table:
+        ds2_case(d1, d2, dname, kind, pairs, medp)
+    timing["C"] = round(time.time() - t_all, 1)
+
+    # ---- D. detrend ---------------------------------------------------------------------------------------------------
+    def det_case(m, dname, kind, slope=0.0):
+        t0 = time.time()
+        i = inp(kind, m, dname)
+        x = make(i)
+        if slope:
+            x = x + slope * np.arange(m)            # float64 only: a steep line whose index term needs more than 24 bits
+        x0 = x.copy()
+        case = {"api": "kernels.detrend_1d", "input": i, "added_line": f"+ {slope} * arange(n)" if slope else None, "generator": GEN}
+        R.case(("scale", "detrend", m, dname, kind, slope), regime="scale")
+        out = attempt("detrend_1d", case, lambda: kernels.detrend_1d(x))
+        untouched(x, x0, "kernels.detrend_1d", case)
+        if out is None:
+            return
+        out = np.asarray(out)
+        sd = small_dtype("detrend_1d", dname, "mean")
+        if out.shape != (m,) or (sd is not None and out.dtype != sd):
+            R.fail("scale-detrend_1d", "detrend_1d at scale: length or dtype of the result differs from the small-input behaviour",
+                   dict(case, got_shape=list(out.shape), got_dtype=str(out.dtype), dtype_of_the_same_call_on_a_small_input=str(sd)))
+            return
+        xf = x0.astype(np.float64)
+        exp = np.arange(m, dtype=np.float64)
+        exp -= (m - 1) / 2.0                                    # centred index: the least-squares line is ybar + slope * (i - ibar)
+        yb = float(xf.mean())
+        sl = float(np.dot(exp, xf - yb) / np.dot(exp, exp))
+        exp *= -sl
+        exp += xf
+        exp -= yb                                               # exp = x - (ybar + slope * (i - ibar)), built in place
+        vmax = max(1.0, float(np.abs(xf).max()))
+        del xf
+        o = out.astype(np.float64)
+        # a tenth of the tolerance of `run` for lengths above 64 (measured error on the unchanged tree: below 1e-4 of this bound)
+        tol = (2e-5 if out.dtype == np.float32 else 1e-9) * vmax * 5
+        dif = np.abs(o - exp)
+        err, k = float(dif.max()), int(np.argmax(dif))
+        del dif
+        s0 = abs(float(o.sum())) / m
+        s1 = abs(float(np.dot(np.arange(m, dtype=np.float64), o))) / (m * max(m - 1, 1))
+        if not (err <= tol and s0 <= tol and s1 <= tol):
+            R.fail("scale-detrend_1d", "detrend_1d at scale is not the least-squares residual (normal equations sum r = 0, sum i r = 0 violated)",
+                   dict(case, max_abs_error=err, at_index=k, got=float(o[k]), definition=float(exp[k]), mean_residual=s0, mean_first_moment=s1,
+                        tolerance=tol, out_dtype=str(out.dtype)))
+        timing[f"det {m} {dname}"] = round(time.time() - t0, 2)
+
+    for m, dname, kind, slope in [(P16 + 1, "uint8", "ramp", 0), (P16 + 1, "float32", "uniform", 0), (P18 + 1, "float64", "big", 0),
+                                  (P20 + 1, "uint8", "high", 0), (P20 + 1, "float32", "ramp", 0), (P22 + 1, "float64", "uniform", 0.75),
+                                  (P24 + 5, "float32", "uniform", 0), (P24 + 5, "uint8", "uniform", 0), (P24 + 5, "float64", "uniform", 1.0)]:
+        det_case(m, dname, kind, slope)
+        gc.collect()
+    timing["D"] = round(time.time() - t_all, 1)
+
+    # ---- E. long histories on ONE large object: every result is the definition on the ORIGINAL data ------------------------
+    def history(n, dname, nops, tag):
+        t0 = time.time()
+        dt = DT[dname]
+        i = inp("uniform", n, dname)
+        x = make(i)
+        x0 = x.copy()
+        hr = np.random.default_rng([seed, 99, n])
+        ts = TimeSeries(x, header(1, n, "time series")) if dname == "float32" else None
+        done = []
+        for k in range(nops):
+            c = ["ds1", "ds1", "k1", "k1p", "rf", "det", "tsds", "dered"][int(hr.integers(0, 8 if ts is not None else 6))]
+            method = METHODS[int(hr.integers(0, 2))]
+            f = int([2, 3, 49, 256, P16 + 1, n // 2, n][int(hr.integers(0, 7))])
+            w = int([2, 5, 101, 4097][int(hr.integers(0, 4))]) if dname != "uint8" else int([2, 3][int(hr.integers(0, 2))])
+            if c == "rf" and dname == "uint8" and (n > P16 + 1 or sum(1 for d_ in done if d_[0] == "rf") >= 2):
+                c = "ds1"            # bottleneck's 8-bit fallback costs a Python call per sample
+            if c in ("ds1", "tsds"):
+                op = [c, f, method]
+                g = x0[:(n // f) * f].reshape(n // f, f)
+                exp = g.sum(axis=1, dtype=np.float64) / float(f) if method == "mean" else _scale_median_rows(g)
+                api = "downsample_1d" if c == "ds1" else "TimeSeries.downsample"
+                fn = (lambda: stats.downsample_1d(x, f, method)) if c == "ds1" else (lambda: ts.downsample(f, method).data)
+                ind = dt
+            elif c in ("k1", "k1p"):
+                op = [c, f]
+                method = "mean"
+                exp = x0[:(n // f) * f].reshape(n // f, f).sum(axis=1, dtype=np.float64) / float(f)
+                api = "kernels.downsample_1d_mean" + ("_parallel" if c == "k1p" else "")
+                fn = (lambda: kernels.downsample_1d_mean(x, f)) if c == "k1" else (lambda: kernels.downsample_1d_mean_parallel(x, f))
+                ind = dt
+            elif c in ("rf", "dered"):
+                method = "mean"
+                op = [c, w, method]
+                p = padded(x0, w)
+                cs = np.zeros(len(p) + 1, dtype=np.int64)
+                np.cumsum(p.astype(np.int64), out=cs[1:])
+                exp = (cs[w:] - cs[:-w]) / float(w)
+                if c == "dered":
+                    exp = x0.astype(np.float64) - exp
+                api = "running_filter" if c == "rf" else "TimeSeries.deredden"
+                fn = (lambda: stats.running_filter(x, w, "mean")) if c == "rf" else (lambda: ts.deredden("mean", window=w * tsamp).data)
+                ind = None
+            else:
+                op = ["det"]
+                method = "mean"
+                xf = x0.astype(np.float64)
+                ic = np.arange(n, dtype=np.float64) - (n - 1) / 2.0
+                exp = xf - (xf.mean() + np.dot(ic, xf - xf.mean()) / np.dot(ic, ic) * ic)
+                api, fn, ind = "detrend_1d", (lambda: kernels.detrend_1d(x)), None
+            case = {"api": api, "input": i, "call": op, "number_of_earlier_calls_on_the_same_object": len(done), "earlier_calls": done[-12:],
+                    "history": f"numpy.random.default_rng([{seed}, 99, {n}]) stream in scale() history()", "generator": GEN}
+            R.case(("scale", "history", tag, n, dname, k), regime="scale")
+            out = attempt(f"history-{api}", case, fn)
+            if out is None:
+                break
+            sd = small_dtype(api, dname, method)
+            if api == "detrend_1d":
+                o = np.asarray(out)
+                bad = o.shape != exp.shape or (sd is not None and o.dtype != sd) or not bool(
+                    np.allclose(o.astype(np.float64), exp, rtol=0, atol=(2e-5 if o.dtype == np.float32 else 1e-9) * 256 * 50))
+                d = {"problem": "not the least-squares residual of the original data"} if bad else None
+            else:
+                d = _scale_diff(out, exp, ind, sd)
+            changed = not np.array_equal(x.view(np.uint8), x0.view(np.uint8))
+            if d is not None or changed:
+                R.fail(f"scale-history-{api}", f"{api} on a large array / TimeSeries that earlier calls were applied to is not the definition on the "
+                       "original data, or the data changed", dict(case, array_changed=changed, **(d or {})))
+                break
+            done.append(op)
+        timing[f"hist {n} {dname}"] = round(time.time() - t0, 2)
+
+    history(P16 + 1, "uint8", 120, "long")
+    history(P16 + 1, "float32", 120, "long")
+    history(P20 + 3, "float32", 30, "large")
+    history(P20 + 3, "uint8", 24, "large")
+    history(P22 + 1, "float64", 12, "large")
+    timing["E"] = round(time.time() - t_all, 1)
+
+    R.extra_cov["scale_seconds"] = round(time.time() - t_all, 1)
+    if os.environ.get("VERIF_SCALE_TIMING") == "1":
+        print("scale timing:", timing)
+    return R
+
+
+def scale(R: vlib.Run):
+    """the at-scale search of C14 (see _scale_search); nothing is written to disk, the shared input stream is dropped afterwards"""
+    import gc
+    try:
+        return _scale_search(R)
+    finally:
+        _SCALE_BASE.clear()
+        gc.collect()
